@@ -13,7 +13,7 @@ from ..py_frontend import (dotted, call_name, calls_under, walk, param_names, is
 from ..cfg import cfg_of, const_eval
 from ..cxx_ir import CALL_KINDS
 from .common import (short, inst, live_funcs, calls_in, callee_func, member_path, enclosing_map,
-                     ancestors, kind_switches, local_inits, strip_casts)
+                     ancestors, kind_switches, local_inits, strip_casts, if_outcome)
 from .traversal import _path_facts, _conj_atoms
 
 MIRROR = '_NODETYPE_REGISTRY'
@@ -525,9 +525,9 @@ def d3(ctx):
     if ok:
         parent = enclosing_map(f.body)
         i_if = [a for a in ancestors(ins[0], parent) if a.kind == 'IfStmt']
-        ok = bool(i_if) and member_path(i_if[0].kids[0]) == fps[0] and \
-            any(x is ins[0] for x in i_if[0].kids[1].walk()) and \
-            len(i_if[0].kids) > 2 and any(x is ers[0] for x in i_if[0].kids[2].walk())
+        # `mode ? insert : erase`, whichever arm is written first
+        ok = bool(i_if) and member_path(if_outcome(i_if[0], ins[0])[0]) == fps[0] and \
+            if_outcome(i_if[0], ins[0])[1] is True and if_outcome(i_if[0], ers[0])[1] is False
     ctx.check('SetDictInsertionOrdered/shape', ok,
               'SetDictInsertionOrdered inserts the namespace when mode is true and erases it otherwise',
               'SetDictInsertionOrdered is not `mode ? insert(ns) : erase(ns)`', f.loc)
